@@ -72,6 +72,12 @@ def _unobj_(t):
     return unobj(t)
 
 
+def _subterms_(t):
+    from .. import sym
+
+    return sym.subterms(t)
+
+
 def _show_(t):
     from .. import sym
 
@@ -254,6 +260,22 @@ def run(E: Engine, rep: Report, tier: str) -> dict:
             kind_ = "with-layout" if any(x == ("name", "layout") for x in conds_) else "without-layout" if any(x == ("not", ("name", "layout")) for x in conds_) else f"path{i_}"
             rep.check(want <= got, "TABLE", f"{fn_name}|{kind_}|every-qubit-key-consumed", f"the returned register depends on {sorted(want)} of every qubit entry",
                       f"{fn_name} ({kind_}): the returned register does not depend on {sorted(want - got)} of the qubit entries (it is built from {sorted(got)} only): the decoded register loses that field (e.g. the qubit IDs fall back to q0, q1, ...)", E.where(f_))
+    # a key the device serializer writes only conditionally is left out only when the decoder's fallback (the dataclass
+    # default of the concrete class) is what was left out: the condition refers to the defaults table.  (`if dmm_list:`
+    # alone drops an empty DMM tuple, which a VirtualDevice -- default (DMM(),) -- decodes to one DMM.)
+    bta = E.fn("pulser.devices._device_datacls.BaseDevice._to_abstract_repr")
+    n_cond = 0
+    for l in _S(E, bta).logged("store"):
+        t_ = l.target
+        if t_ is None or t_[0] != "idx" or t_[2][0] != "const" or not isinstance(t_[2][1], str) or l.cond == ("const", True):
+            continue
+        if not any(x[0] == "call" and x[1] == ("name", "fields") for x in _subterms_(_unobj_(t_[1]))) and "params" not in _show_(t_[1])[:40]:
+            continue
+        n_cond += 1
+        refers = any(x[0] == "call" and x[1] == ("name", "get_dataclass_defaults") for x in _subterms_(l.cond))
+        rep.check(refers, "TABLE", f"BaseDevice._to_abstract_repr|{t_[2][1]}|elided-only-when-equal-to-default", "the condition for writing the key consults the dataclass defaults", f"BaseDevice._to_abstract_repr writes '{t_[2][1]}' only under `{_show_(l.cond)[:120]}`, which does not consult the class's own default: when the key is left out the decoder falls back to that default, so a value that differs from it (an empty tuple where the class defaults to (DMM(),)) does not round-trip", E.where(bta, l.node))
+    if n_cond < 1:
+        raise AnalysisError("anchor: the conditionally written key (dmm_objects) of BaseDevice._to_abstract_repr was not found")
     # boolean options are stored as Python bools: EmulationConfig.__init__ hands every parameter annotated `bool`
     # to BackendConfig wrapped in bool(...) (a numpy.bool_ or 0/1 is truthy-equivalent in memory but is not a JSON /
     # schema boolean, so the configuration could no longer be serialised)
